@@ -71,9 +71,12 @@ CLAIMED["C03"] = ("Theorems C03_backtrack_sound, C03_apply_with_options_sound, C
                   "iteration.Engine.backtrack_unary (every commutator, partial projections, transfers into the preferred engine, SQL or "
                   "iteration sources) and of UnaryOperation.apply with every backtrack/transfer/require combination, a returned relation has "
                   "the rows (as a list) and columns of the operation applied at the root, lives in the original or (transfer) preferred "
-                  "engine, and require_preferred_engine refuses with EngineError when the operation cannot be placed there. Excluded: finding "
-                  "F2 (projection past a Deduplication, pinned by the suite; known finding), joins as the moved operation and the transfer "
-                  "into an SQL engine after a failed backtracking attempt (decided per run by the correspondence only). Every generated "
+                  "engine, and require_preferred_engine refuses with EngineError when the operation cannot be placed there. Theorems "
+                  "C03_join_backtrack_sound / C03_join_with_options_sound: the same for Relation.join (a PartialJoin moved upstream to the "
+                  "transfer that left the operand's engine, or the target transferred, or the call refused), under the documented ColumnTag "
+                  "contract. Excluded: finding F2 (projection past a Deduplication, pinned by the suite; known finding), a SQL target joined "
+                  "without transfer to an operand elsewhere, and the transfer into an SQL engine after a failed backtracking attempt "
+                  "(decided per run by the correspondence only). Every generated "
                   "program is built on the real library, processed by a real SQLite<->iteration Processor, executed and compared with the "
                   "model's tree and the specification's rows; placement clauses are judged on the real tree.", "DESIGN.md §4 C03")
 CLAIMED["C07"] = ("Theorems C07_process_faithful and C07_repeated_process_faithful (coq/Properties/C07.v): for every well-formed multi-engine "
